@@ -1795,3 +1795,122 @@ Proof.
   rewrite Hj in H2, H3. rewrite Hbar in H3. destruct (Z.ltb_spec o' 0); [lia|].
   exists r', o', l', s'. repeat split; auto; lia.
 Qed.
+
+(* ---------- reading the blank-line stops over a well-formed buffer ---------- *)
+(* no overlong-encoded line feed: a character whose code point is 10 is the blank byte 0x0A *)
+Definition nl_canon (b : buf) : Prop :=
+  forall i, 0 <= i < nchars b -> is_nl (fchr b i) = true -> uc_isspace (fchr b i) = true.
+(* row r consists of blanks only (e.g. it is empty) *)
+Definition blank_row (b : buf) (r : Z) : Prop :=
+  exists l, getl b r = Some l /\ forall k, 0 <= k < slen l -> uc_isspace (chr_at l k) = true.
+
+Lemma row_nl b r l k : buf_wf b -> getl b r = Some l -> pre b r <= k < pre b r + slen l ->
+  uc_isspace (fchr b k) = true -> (is_nl (fchr b k) = true <-> k = pre b r + slen l - 1).
+Proof.
+  intros HW El Hk Hsp. set (o := k - pre b r). assert (Ho : 0 <= o < slen l) by (unfold o; lia).
+  assert (V : vpos b r o) by (exists l; auto).
+  assert (Ek : k = idx b r o) by (unfold idx, o; lia). rewrite Ek in *.
+  rewrite <- (lchr_idx b r o V) in *. rewrite (nl_is_terminator b r o l HW El Ho Hsp). unfold idx. lia.
+Qed.
+
+Lemma row_term b r l : buf_wf b -> getl b r = Some l ->
+  uc_isspace (fchr b (pre b r + slen l - 1)) = true /\ is_nl (fchr b (pre b r + slen l - 1)) = true.
+Proof.
+  intros HW El. destruct (getl_wf _ _ _ HW El) as (body & E & HF). pose proof (wf_slen l body E) as Hn.
+  assert (Ho : 0 <= slen l - 1 < slen l) by lia.
+  assert (Ec : fchr b (pre b r + slen l - 1) = chr_at l (slen l - 1)).
+  { replace (pre b r + slen l - 1) with (idx b r (slen l - 1)) by (unfold idx; lia). apply fchr_idx; assumption. }
+  assert (Hb : b0 (chr_at l (slen l - 1)) = 10%N).
+  { rewrite E at 1. replace (slen l - 1) with (Z.of_nat (length body)) by lia. apply wf_chr_last. }
+  assert (Hsp : uc_isspace (fchr b (pre b r + slen l - 1)) = true).
+  { rewrite Ec. unfold uc_isspace. unfold b0 in Hb. rewrite Hb. reflexivity. }
+  split; [exact Hsp|]. apply (row_nl b r l _ HW El); [lia|exact Hsp|reflexivity].
+Qed.
+
+Lemma pre_pos_row b r : 0 <= r -> 0 < pre b r -> 1 <= r.
+Proof. intros H0 H. destruct (Z.eq_dec r 0) as [->|]; [rewrite pre_zero in H; lia|lia]. Qed.
+
+Lemma prev_row b r : 1 <= r -> r < blen b -> exists l1, getl b (r - 1) = Some l1 /\ pre b r = pre b (r - 1) + slen l1.
+Proof.
+  intros H1 H2. destruct (getl_in_range b (r - 1) ltac:(lia)) as (l1 & E1). exists l1. split; [exact E1|].
+  pose proof (pre_succ b (r - 1) l1 E1) as HS. replace (r - 1 + 1) with r in HS by lia. exact HS.
+Qed.
+
+(* w W: the blank-line stop is exactly the terminator of a row of blanks that begins after the cursor *)
+Lemma w_blank_stop_reading b i r o l : buf_wf b -> nl_canon b -> 0 <= i -> getl b r = Some l -> 0 <= o < slen l ->
+  (w_blank_stop (fchr b) i (idx b r o) <-> o = slen l - 1 /\ blank_row b r /\ i < idx b r 0).
+Proof.
+  intros HW HCn Hi El Ho. pose proof (getl_some _ _ _ El) as [Hr _].
+  pose proof (pre_le b r l El) as HL. pose proof (pre_nonneg b r) as HP. unfold idx. rewrite Z.add_0_r. split.
+  - intros (Hsp & Hnl & p' & Hp' & Hnl' & Hbl).
+    assert (Eo : o = slen l - 1) by (apply (row_nl b r l _ HW El) in Hnl; [lia|lia|exact Hsp]).
+    assert (Hsp' : uc_isspace (fchr b p') = true) by (apply HCn; [lia|exact Hnl']).
+    assert (Hlt : p' < pre b r).
+    { destruct (Z_lt_dec p' (pre b r)); [assumption|]. exfalso.
+      apply (row_nl b r l p' HW El) in Hnl'; [lia|lia|exact Hsp']. }
+    split; [exact Eo|]. split; [|lia]. exists l. split; [exact El|]. intros k Hk.
+    rewrite <- (fchr_idx b r k l El Hk). unfold idx. destruct (Z.eq_dec k o) as [->|]; [exact Hsp|apply Hbl; lia].
+  - intros (Eo & (l' & El' & Hbl) & Hlt). rewrite El in El'. inversion El'; subst l'.
+    assert (H1 : 1 <= r) by (apply (pre_pos_row b); lia).
+    destruct (prev_row b r H1 ltac:(lia)) as (l1 & E1 & EP). destruct (row_term b (r - 1) l1 HW E1) as [T1 T2].
+    destruct (row_term b r l HW El) as [S1 S2]. subst o. replace (pre b r + (slen l - 1)) with (pre b r + slen l - 1) by lia.
+    split; [exact S1|]. split; [exact S2|]. exists (pre b (r - 1) + slen l1 - 1).
+    pose proof (getl_ne b _ _ (buf_wf_ne b HW) E1). split; [lia|]. split; [exact T2|].
+    intros k Hk. replace k with (idx b r (k - pre b r)) by (unfold idx; lia).
+    rewrite (fchr_idx b r (k - pre b r) l El) by lia. apply Hbl. lia.
+Qed.
+
+(* e E: the same, and only blanks lie between the cursor and that row *)
+Lemma e_blank_stop_reading b i r o l : buf_wf b -> nl_canon b -> 0 <= i -> getl b r = Some l -> 0 <= o < slen l ->
+  (e_blank_stop (fchr b) i (idx b r o) <->
+   o = slen l - 1 /\ blank_row b r /\ i < idx b r 0 /\ forall k, i < k < idx b r 0 -> uc_isspace (fchr b k) = true).
+Proof.
+  intros HW HCn Hi El Ho. pose proof (getl_some _ _ _ El) as [Hr _].
+  pose proof (pre_le b r l El) as HL. pose proof (pre_nonneg b r) as HP. unfold idx. rewrite Z.add_0_r. split.
+  - intros (Hnl & Hbl & p' & Hp' & Hnl' & Hsp').
+    assert (Hsp : uc_isspace (fchr b (pre b r + o)) = true) by (apply HCn; [lia|exact Hnl]).
+    assert (Eo : o = slen l - 1) by (apply (row_nl b r l _ HW El) in Hnl; [lia|lia|exact Hsp]).
+    assert (Hlt : p' < pre b r).
+    { destruct (Z_lt_dec p' (pre b r)); [assumption|]. exfalso.
+      apply (row_nl b r l p' HW El) in Hnl'; [lia|lia|exact Hsp']. }
+    split; [exact Eo|]. split; [|split; [lia|intros k Hk; apply Hbl; lia]]. exists l. split; [exact El|]. intros k Hk.
+    rewrite <- (fchr_idx b r k l El Hk). unfold idx. destruct (Z.eq_dec k o) as [->|]; [exact Hsp|apply Hbl; lia].
+  - intros (Eo & (l' & El' & Hbl) & Hlt & Hbetween). rewrite El in El'. inversion El'; subst l'.
+    assert (H1 : 1 <= r) by (apply (pre_pos_row b); lia).
+    destruct (prev_row b r H1 ltac:(lia)) as (l1 & E1 & EP). destruct (row_term b (r - 1) l1 HW E1) as [T1 T2].
+    destruct (row_term b r l HW El) as [S1 S2]. subst o. replace (pre b r + (slen l - 1)) with (pre b r + slen l - 1) by lia.
+    split; [exact S2|]. pose proof (getl_ne b _ _ (buf_wf_ne b HW) E1). split.
+    + intros k Hk. destruct (Z_lt_dec k (pre b r)); [apply Hbetween; lia|].
+      replace k with (idx b r (k - pre b r)) by (unfold idx; lia).
+      rewrite (fchr_idx b r (k - pre b r) l El) by lia. apply Hbl. lia.
+    + exists (pre b (r - 1) + slen l1 - 1). split; [lia|]. split; [exact T2|exact T1].
+Qed.
+
+(* b B: the blank-line stop is exactly the first character of a row of blanks that ends before the
+   cursor, with only blanks between that row and the cursor *)
+Lemma b_blank_stop_reading b i r o l : buf_wf b -> nl_canon b -> i <= nchars b -> getl b r = Some l -> 0 <= o < slen l ->
+  (b_blank_stop (fchr b) i (idx b r o) <->
+   o = 0 /\ 1 <= r /\ blank_row b r /\ idx b r (slen l - 1) < i /\
+   forall k, idx b r 0 <= k < i -> uc_isspace (fchr b k) = true).
+Proof.
+  intros HW HCn Hi El Ho. pose proof (getl_some _ _ _ El) as [Hr _].
+  pose proof (pre_le b r l El) as HL. pose proof (pre_nonneg b r) as HP. unfold idx. rewrite Z.add_0_r. split.
+  - intros (Hj1 & Hnl & Hbl & p'' & Hp'' & Hnl'').
+    assert (Eo : o = 0).
+    { destruct (Z.eq_dec o 0); [assumption|]. exfalso.
+      assert (Hsp : uc_isspace (fchr b (pre b r + o - 1)) = true) by (apply HCn; [lia|exact Hnl]).
+      apply (row_nl b r l _ HW El) in Hnl; [lia|lia|exact Hsp]. }
+    subst o. rewrite Z.add_0_r in *.
+    assert (H1 : 1 <= r) by (apply (pre_pos_row b); lia).
+    assert (Hterm : pre b r + (slen l - 1) < i).
+    { destruct (Z_lt_dec (pre b r + (slen l - 1)) i); [assumption|]. exfalso.
+      assert (Hsp : uc_isspace (fchr b p'') = true) by (apply Hbl; lia).
+      apply (row_nl b r l p'' HW El) in Hnl''; [lia|lia|exact Hsp]. }
+    split; [reflexivity|]. split; [exact H1|]. split; [|split; [exact Hterm|exact Hbl]].
+    exists l. split; [exact El|]. intros k Hk. rewrite <- (fchr_idx b r k l El Hk). unfold idx. apply Hbl. lia.
+  - intros (Eo & H1 & (l' & El' & Hrow) & Hterm & Hbl). subst o. rewrite Z.add_0_r.
+    destruct (prev_row b r H1 ltac:(lia)) as (l1 & E1 & EP). destruct (row_term b (r - 1) l1 HW E1) as [T1 T2].
+    destruct (row_term b r l HW El) as [S1 S2]. pose proof (getl_ne b _ _ (buf_wf_ne b HW) E1). pose proof (pre_nonneg b (r - 1)).
+    split; [lia|]. split; [replace (pre b r - 1) with (pre b (r - 1) + slen l1 - 1) by lia; exact T2|].
+    split; [exact Hbl|]. exists (pre b r + slen l - 1). split; [lia|exact S2].
+Qed.
